@@ -113,14 +113,23 @@ def evaluate(f, val: Dict[str, bool]) -> bool:
     raise AssertionError(k)
 
 
+_NUM_CACHE: Dict[str, Optional[float]] = {}
+
+
 def _is_number(t: str) -> Optional[float]:
     try:
-        return float(t)
-    except ValueError:
-        return None
+        return _NUM_CACHE[t]
+    except KeyError:
+        try:
+            v = float(t)
+        except ValueError:
+            v = None
+        _NUM_CACHE[t] = v
+        return v
 
 
 INT_THEORY = [False]
+_SPLIT_CACHE: Dict[str, tuple] = {}
 
 
 class int_theory:
@@ -168,12 +177,19 @@ def _consistent(val: Dict[str, bool], keys: List[str]) -> bool:
     """Built-in theory filter."""
     eqs, lts = {}, {}
     for k in keys:
-        if k.startswith("EQ:"):
-            a, b = k[3:].split(" == ", 1)
-            eqs[(a, b)] = val[k]
-        elif k.startswith("LT:"):
-            a, b = k[3:].split(" < ", 1)
-            lts[(a, b)] = val[k]
+        sp = _SPLIT_CACHE.get(k)
+        if sp is None:
+            if k.startswith("EQ:"):
+                sp = ("EQ",) + tuple(k[3:].split(" == ", 1))
+            elif k.startswith("LT:"):
+                sp = ("LT",) + tuple(k[3:].split(" < ", 1))
+            else:
+                sp = ("X",)
+            _SPLIT_CACHE[k] = sp
+        if sp[0] == "EQ":
+            eqs[(sp[1], sp[2])] = val[k]
+        elif sp[0] == "LT":
+            lts[(sp[1], sp[2])] = val[k]
     if INT_THEORY[0] and not _int_consistent(eqs, lts):
         return False
     # total order on each operand pair
@@ -251,13 +267,12 @@ def implies(facts: Sequence[Tuple[ast.expr, bool]], goal: ast.expr, mapping: Dic
         f = to_formula(subst(e, mapping), atoms)
         ffs.append(f if pol else ("not", f))
     # drop facts sharing no atom (and no operand text) with anything relevant: keep table small
-    keys = sorted(atoms)
+    # facts that share no atom / operand (transitively) with the goal cannot help to prove it
+    rel = _relevant(ffs, gf, goal_atoms)
+    ffs = [f for f in ffs if _atoms_of(f) & rel]
+    keys = sorted(rel | goal_atoms)
     if len(keys) > MAX_ATOMS:
-        rel = _relevant(ffs, gf, goal_atoms)
-        ffs = [f for f in ffs if _atoms_of(f) & rel]
-        keys = sorted(rel | goal_atoms)
-        if len(keys) > MAX_ATOMS:
-            raise AnalysisError(f"too many guard atoms ({len(keys)}) for goal {unparse(goal)}")
+        raise AnalysisError(f"too many guard atoms ({len(keys)}) for goal {unparse(goal)}")
     for bits in itertools.product((False, True), repeat=len(keys)):
         val = dict(zip(keys, bits))
         if not _consistent(val, keys):
